@@ -375,6 +375,15 @@ def _situation(att, p, p2, bad, env):
                 return "staged-buffer-written-through-call-never-stored-back"
     if op == "autofission":
         return "no-dependence-check"
+    if op == "simplify":
+        # F14 (recorded under C12): DoSimplify's fact table is keyed by the PRINTED expression; with two distinct
+        # symbols of one name (shadowing loop variables) a fact `i == 0` about one rewrites the other
+        binders = [a.name for a in ir.args] + [x.iter for st in ir.body for x in walk(st) if isinstance(x, LoopIR.For)] \
+            + [x.name for st in ir.body for x in walk(st) if isinstance(x, (LoopIR.Alloc, LoopIR.WindowStmt))]
+        names = [b.name() for b in set(binders)]
+        has_fact = any(isinstance(x, LoopIR.If) for st in ir.body for x in walk(st))
+        if has_fact and len(names) != len(set(names)):
+            return "fact-table-keyed-by-printed-name:shadowed-symbol-rewritten"
     if op == "lift_reduce_constant":
         if isinstance(n, LoopIR.Reduce):
             return "first-statement-is-a-reduce"
